@@ -64,7 +64,33 @@ class FB:
         self.comments = []
         self._cur = None
 
+    line_prefix = ""       # when set, every line that starts after this point begins with these characters (indentation); the
+                           # prefix is written as soon as a line starts, so that positions recorded afterwards include it
+
+    def start_prefix(self, prefix):
+        self.line_prefix = prefix
+        if prefix and self.col == 1:
+            self._plain(prefix)
+            self._prefix_only = True
+
     def raw(self, text):
+        if not text:
+            return
+        if self.line_prefix:
+            pieces = text.split("\n")
+            for k, piece in enumerate(pieces):
+                last = k == len(pieces) - 1
+                if piece or not last:
+                    self._prefix_only = False
+                self._plain(piece + ("" if last else "\n"))
+                if not last:
+                    self._plain(self.line_prefix)
+                    self._prefix_only = True
+            return
+        self._prefix_only = False
+        self._plain(text)
+
+    def _plain(self, text):
         if not text:
             return
         b = text.encode("utf-8")
@@ -84,8 +110,10 @@ class FB:
         self.raw(text)
         self.nl()
 
+    _prefix_only = False
+
     def at_line_start(self):
-        return self.col == 1
+        return self.col == 1 or self._prefix_only
 
     # -- comments --------------------------------------------------------------------------
     def open_comment(self, form):
